@@ -257,6 +257,27 @@ func record(seq []ls.SMsg, sl []int32, bpm float64, res smf.MetricTicks, via str
 	if pre == 1 && refsmf.FirstDiff(preEvents, sp.FromTrack(back.Tracks[0])) != "" {
 		report("record:existing-track-changed:"+via, seq, sl, bpm, res, via, "the track the file held before the recording reads back differently")
 	}
+	// the same recording written with a status byte on every event (a chord or a
+	// controller run then repeats the status byte of the event before)
+	file.NoRunningStatus = true
+	var buf2 bytes.Buffer
+	c = engine.Catch(func() { _, werr = file.WriteTo(&buf2) })
+	if c.Panicked || werr != nil {
+		report("record:write-error:no-running-status:"+feat, seq, sl, bpm, res, via, fmt.Sprintf("%v %s", werr, c.Value))
+		return
+	}
+	if _, perr := refsmf.Parse(buf2.Bytes(), refsmf.Strict); perr != nil {
+		report("record:invalid-file:no-running-status:"+feat, seq, sl, bpm, res, via, "strict parser rejects the recorded file: "+perr.Error()+" bytes="+engine.Hex(buf2.Bytes()))
+		return
+	}
+	c = engine.Catch(func() { back, rerr = smf.ReadFrom(bytes.NewReader(buf2.Bytes())) })
+	if c.Panicked || rerr != nil {
+		report("record:readback-fails:no-running-status:"+feat, seq, sl, bpm, res, via, fmt.Sprintf("library cannot read its recording: %v %s", rerr, c.Value))
+		return
+	}
+	if len(back.Tracks) != pre+1 || refsmf.FirstDiff(sp.FromTrack(file.Tracks[pre]), sp.FromTrack(back.Tracks[pre])) != "" {
+		report("record:readback-differs:no-running-status:"+feat, seq, sl, bpm, res, via, "events read back differ from the recorded track")
+	}
 }
 
 // twoTakes: the same Track variable records twice (each take starts with its
